@@ -355,8 +355,8 @@ func c12(c *core.Ctx) {
 		targetedResponseDuringClose(c, int(i))
 		c.Distinct(uint64(i) | 25<<50)
 	})
-	c.Section("idle-read-errors", 4, func(i int64, _ *gen.Rand) {
-		targetedIdleReadErrors(c, []int{3, 999, 1000, 2500}[i])
+	c.Section("idle-read-errors", 7, func(i int64, _ *gen.Rand) {
+		targetedIdleReadErrors(c, []int{3, 999, 1000, 2500, 65535, 65536, 70000}[i])
 		c.Distinct(uint64(i) | 21<<50)
 	})
 	c.Section("sequential-churn", c.N(16, 3000), func(_ int64, r *gen.Rand) {
